@@ -37,7 +37,7 @@ def kind_sort(kind):
         return PyVal
     if kind == "none":
         return BoolS  # placeholder, never stored
-    if kind.startswith(("ref:", "list:", "dict:", "set:", "iter:", "optref:")):
+    if kind.startswith(("ref:", "list:", "dict:", "set:", "iter:", "optref:")) or kind == "ext":
         return IntS
     raise ValueError(f"no z3 sort for kind {kind!r}")
 
@@ -203,8 +203,8 @@ def from_sort(kind, term):
         return SMatch(term)
     if kind.startswith("optref:"):
         return SOptRef(term, kind[7:])
-    if kind.startswith(("ref:", "list:", "dict:", "set:", "iter:")):
-        return SRef(term, kind)
+    if kind.startswith(("ref:", "list:", "dict:", "set:", "iter:")) or kind == "ext":
+        return SRef(term, kind)     # 'ext': an opaque third-party object
     raise ValueError(kind)
 
 
